@@ -38,7 +38,7 @@ func init() {
 			w.obj = o
 		},
 		methods: map[string]method{
-			"WaitGroup.Add":         func(w *world, c *call) { wo(w).wg.Add(1) },
+			"WaitGroup.Add": func(w *world, c *call) { wo(w).wg.Add(1) },
 			// a Done without a matching Add is a documented invariant violation (and would make the Done of a
 			// concurrent Launch panic inside a library goroutine): on a zero group the call is Add(1); Done()
 			"WaitGroup.Done": func(w *world, c *call) {
@@ -62,10 +62,9 @@ func init() {
 // ---------------------------------------------------------------- erc.Collector
 
 type colObj struct {
-	ec   *erc.Collector
-	h    fun.Handler[error]
-	fut  fun.Future[error]
-	iter *fun.Iterator[error]
+	ec  *erc.Collector
+	h   fun.Handler[error]
+	fut fun.Future[error]
 }
 
 func co(w *world) *colObj { return w.obj.(*colObj) }
@@ -84,7 +83,6 @@ func init() {
 			}
 			o.h = o.ec.Handler()
 			o.fut = o.ec.Future()
-			o.iter = o.ec.Iterator()
 			w.obj = o
 		},
 		methods: map[string]method{
@@ -92,7 +90,17 @@ func init() {
 			"Collector.Handler()": func(w *world, c *call) { co(w).h(fmt.Errorf("h%d.%d", c.tid, c.i)) },
 			"Collector.Len":       func(w *world, c *call) { _ = co(w).ec.Len() },
 			"Collector.Iterator":  func(w *world, c *call) { _ = co(w).ec.Iterator() },
-			"Collector.Iterator().ReadOne": func(w *world, c *call) { _, _ = co(w).iter.ReadOne(c.ctx) },
+			// an iterator of the Collector is private to the goroutine that made it: its producer keeps a
+			// position without synchronisation (ers/merged.go CheckProducer) and fun.Iterator.ReadOne is
+			// documented safe only "if the generator/producer function in the iterator is safe for concurrent use"
+			"Collector.Iterator().ReadOne": func(w *world, c *call) {
+				it, _ := w.local[c.tid].(*fun.Iterator[error])
+				if it == nil || c.i%8 == 0 {
+					it = co(w).ec.Iterator()
+					w.local[c.tid] = it
+				}
+				_, _ = it.ReadOne(c.ctx)
+			},
 			"Collector.Resolve":   func(w *world, c *call) { _ = co(w).ec.Resolve() },
 			"Collector.Future()":  func(w *world, c *call) { _ = co(w).fut() },
 			"Collector.HasErrors": func(w *world, c *call) { _ = co(w).ec.HasErrors() },
@@ -336,16 +344,22 @@ func init() {
 
 type setObj struct {
 	s, o *dt.Set[int]
+	once sync.Once          // class fresh: the shared closures are made on first use (making them initialises the set)
 	prod fun.Producer[int]  // s.Producer(): "If the Set is synchronize, then the Producer always holds the Set's lock when called"
 	iter *fun.Iterator[int] // s.Iterator(): shared, only ReadOne
 }
 
 func st(w *world) *setObj { return w.obj.(*setObj) }
 
+func (o *setObj) closures() *setObj {
+	o.once.Do(func() { o.prod = o.s.Producer(); o.iter = o.s.Iterator() })
+	return o
+}
+
 func init() {
 	lt := func(a, b int) bool { return a < b }
 	register("set", &component{
-		classes: []string{"unordered/empty", "unordered/nonempty", "ordered/empty", "ordered/nonempty"},
+		classes: []string{"unordered/fresh", "unordered/empty", "unordered/nonempty", "ordered/empty", "ordered/nonempty"},
 		build: func(w *world, class string) {
 			cfg, state, _ := strings.Cut(class, "/")
 			mkset := func() *dt.Set[int] {
@@ -362,35 +376,34 @@ func init() {
 				return s
 			}
 			o := &setObj{s: mkset(), o: mkset()}
-			o.prod = o.s.Producer()
-			o.iter = o.s.Iterator()
+			if state != "fresh" {
+				o.closures()
+			}
 			w.obj = o
 		},
 		methods: map[string]method{
-			"Set.Synchronize": func(w *world, c *call) { st(w).s.Synchronize() },
-			"Set.Order":       func(w *world, c *call) { st(w).s.Order() }, // non-empty unordered set: documented invariant panic, recovered
-			"Set.SortQuick":   func(w *world, c *call) { st(w).s.SortQuick(lt) },
-			"Set.SortMerge":   func(w *world, c *call) { st(w).s.SortMerge(lt) },
-			"Set.AddCheck":    func(w *world, c *call) { _ = st(w).s.AddCheck((c.i*2 + c.tid) % 64) },
-			"Set.Add":         func(w *world, c *call) { st(w).s.Add((c.i*2 + c.tid) % 64) },
-			"Set.Len":         func(w *world, c *call) { _ = st(w).s.Len() },
-			"Set.Check":       func(w *world, c *call) { _ = st(w).s.Check(c.i % 64) },
-			"Set.DeleteCheck": func(w *world, c *call) { _ = st(w).s.DeleteCheck(c.i % 64) },
-			"Set.Delete":      func(w *world, c *call) { st(w).s.Delete(c.i % 64) },
-			"Set.Producer":    func(w *world, c *call) { _ = st(w).s.Producer() },
-			"Set.Producer()":  func(w *world, c *call) { _, _ = st(w).prod(c.ctx) },
-			"Set.Iterator":    func(w *world, c *call) { _ = st(w).s.Iterator() },
-			"Set.Iterator().ReadOne": func(w *world, c *call) { _, _ = st(w).iter.ReadOne(c.ctx) },
-			"Set.MarshalJSON":   func(w *world, c *call) { _, _ = st(w).s.MarshalJSON() },
-			"Set.Populate":      func(w *world, c *call) { st(w).s.Populate(fun.SliceIterator([]int{c.i % 64, 65, 66})) },
-			"Set.UnmarshalJSON": func(w *world, c *call) { _ = st(w).s.UnmarshalJSON([]byte(`[1,2,67]`)) },
-			"Set.Extend":        func(w *world, c *call) { st(w).s.Extend(st(w).o) },
-			"Set.Equal":         func(w *world, c *call) { _ = st(w).s.Equal(st(w).o) },
-			"Set.Add@o":         func(w *world, c *call) { st(w).o.Add((c.i*2 + c.tid) % 64) },
-			"Set.Delete@o":      func(w *world, c *call) { st(w).o.Delete(c.i % 64) },
-			"Set.SortQuick@o":   func(w *world, c *call) { st(w).o.SortQuick(lt) },
+			"Set.Synchronize":        func(w *world, c *call) { st(w).s.Synchronize() },
+			"Set.Order":              func(w *world, c *call) { st(w).s.Order() }, // non-empty unordered set: documented invariant panic, recovered
+			"Set.SortQuick":          func(w *world, c *call) { st(w).s.SortQuick(lt) },
+			"Set.SortMerge":          func(w *world, c *call) { st(w).s.SortMerge(lt) },
+			"Set.AddCheck":           func(w *world, c *call) { _ = st(w).s.AddCheck((c.i*2 + c.tid) % 64) },
+			"Set.Add":                func(w *world, c *call) { st(w).s.Add((c.i*2 + c.tid) % 64) },
+			"Set.Len":                func(w *world, c *call) { _ = st(w).s.Len() },
+			"Set.Check":              func(w *world, c *call) { _ = st(w).s.Check(c.i % 64) },
+			"Set.DeleteCheck":        func(w *world, c *call) { _ = st(w).s.DeleteCheck(c.i % 64) },
+			"Set.Delete":             func(w *world, c *call) { st(w).s.Delete(c.i % 64) },
+			"Set.Producer":           func(w *world, c *call) { _ = st(w).s.Producer() },
+			"Set.Producer()":         func(w *world, c *call) { _, _ = st(w).closures().prod(c.ctx) },
+			"Set.Iterator":           func(w *world, c *call) { _ = st(w).s.Iterator() },
+			"Set.Iterator().ReadOne": func(w *world, c *call) { _, _ = st(w).closures().iter.ReadOne(c.ctx) },
+			"Set.MarshalJSON":        func(w *world, c *call) { _, _ = st(w).s.MarshalJSON() },
+			"Set.Populate":           func(w *world, c *call) { st(w).s.Populate(fun.SliceIterator([]int{c.i % 64, 65, 66})) },
+			"Set.UnmarshalJSON":      func(w *world, c *call) { _ = st(w).s.UnmarshalJSON([]byte(`[1,2,67]`)) },
+			"Set.Extend":             func(w *world, c *call) { st(w).s.Extend(st(w).o) },
+			"Set.Equal":              func(w *world, c *call) { _ = st(w).s.Equal(st(w).o) },
+			"Set.Add@o":              func(w *world, c *call) { st(w).o.Add((c.i*2 + c.tid) % 64) },
+			"Set.Delete@o":           func(w *world, c *call) { st(w).o.Delete(c.i % 64) },
+			"Set.SortQuick@o":        func(w *world, c *call) { st(w).o.SortQuick(lt) },
 		},
 	})
 }
-
-var _ sync.Locker
